@@ -311,7 +311,12 @@ def execute(case, ctx):
             from ortools.sat.python import cp_model
             from job_shop_lib.constraint_programming import ORToolsSolver
             with patched(cp_model, "CpSolver", cpsat_factory(cfg["solver_seed"])):
-                sched = ORToolsSolver().solve(inst)
+                cp = ORToolsSolver()
+                if cfg["solver_seed"] % 2:
+                    # the solver object was used before, on a variant of the same shape with other durations
+                    cp.solve(build({**spec, "jobs": [[[ms, d + 1 + (k + p) % 3] for p, (ms, d) in enumerate(job)] for k, job in enumerate(spec["jobs"])]}))
+                    ctx.probe("cpsat_solver_reused")
+                sched = cp.solve(inst)
             dispatcher_built = False
     except Exception as e:  # noqa: BLE001
         raise Foreign({"dispatcher": "C01", "sequences": "C14", "rule": "C04", "cpsat": "C03"}[source], short_exc(e))
